@@ -493,8 +493,25 @@ impl Default for GenOpts {
     }
 }
 
+thread_local! {
+    static SIZE_BOOST: std::cell::Cell<bool> = const { std::cell::Cell::new(false) };
+}
+
+/// Thorough-tier option of the table checks: while set, `gen_random` draws medium-sized grammars
+/// (up to 11 rules / 8 tokens instead of 6 / 5). Set explicitly at the start of every case.
+pub fn set_size_boost(on: bool) {
+    SIZE_BOOST.with(|c| c.set(on));
+}
+
 /// Uniformly random small grammar.
 pub fn gen_random(rng: &mut Rng, o: &GenOpts, family: &'static str) -> AG {
+    let boosted;
+    let (o, family) = if SIZE_BOOST.with(|c| c.get()) {
+        boosted = GenOpts { max_rules: (o.max_rules + 5).min(RULENAMES.len()), max_tokens: (o.max_tokens + 3).min(TOKNAMES.len()), max_alts: o.max_alts, max_syms: o.max_syms + 1, empty_pct: o.empty_pct, reduced: o.reduced };
+        (&boosted, if family == "random-small" { "random-medium" } else { family })
+    } else {
+        (o, family)
+    };
     let mut g = AG::new(AKind::OriginalGeneric, family);
     let nr = rng.range(1, o.max_rules);
     let nt = rng.range(1, o.max_tokens);
